@@ -164,15 +164,27 @@ def mutations(name, spec, tier):
                 break
 
     if c:
+        # an invalid value (z3 model of the complement of the type's lexical space) for up to 3 attributes of different types
+        import json
+        from .c04 import invalid_values
+        seen_types = set()
         for a in c['attrs']:
             T = refmodel.attr_type(lib.MODEL, a)
-            if ':' in a['name'] or not T.get('enums') or a.get('fixed'):
+            k = json.dumps(T, sort_keys=True)
+            if ':' in a['name'] or a['name'] == 'name' or a.get('fixed') or k in seen_types:
                 continue
+            bad = [v for v in invalid_values(T) if isinstance(v, str) and v.strip() == v and v != '']
+            if T.get('enums'):
+                bad = ['no-such-literal'] + bad
+            if not bad:
+                continue
+            seen_types.add(k)
 
-            def setbad(r, k=a['name']):
-                r.set(k, 'no-such-literal')
-            variant('invalid-enumeration-attribute:%s' % a['name'], setbad)
-            break
+            def setbad(r, k=a['name'], v=bad[0]):
+                r.set(k, v)
+            variant('invalid-attribute-value:%s=%s' % (a['name'], bad[0]), setbad)
+            if len(seen_types) >= (3 if tier == 'quick' else 8):
+                break
 
     def comment(r):
         r.insert(0, ET.Comment('a comment'))
